@@ -81,7 +81,9 @@ Reduced ==
 
 \* Target shapes of an assignment: <base>:<path>; base v = a local variable, p = a pointer parameter.
 TargetShapes == {b \o ":" \o sh : b \in {"v", "p"},
-                                  sh \in {"elem", "mem", "mem.mem", "mem.elem.mem", "pmem.mem", "mem.mem.elem", "elem.mem", "mem.elem"}}
+                                  sh \in {"elem", "mem", "mem.mem", "mem.elem.mem", "pmem.mem", "mem.mem.elem", "elem.mem", "mem.elem",
+                                         \* (seventh round) a pointer member that is indexed; pointers STORED IN ELEMENTS that are indexed / accessed
+                                         "pmem.elem", "pelem.elem", "pelem.mem", "mem.pelem.elem"}}
 PathAssign == {Cell("assignp", sh, s, ks, d, kd) : sh \in TargetShapes, s \in {I32, U8, P("u32"), Bool, PTR}, ks \in 0..1,
                                                  d \in {I32, U8, Bool, PTR}, kd \in 0..1}
 
